@@ -55,7 +55,7 @@ def make_script(rng, g):
     for _ in range(rng.randint(1, 6)):
         k = rng.random()
         if k < 0.45:
-            ps = list(dict.fromkeys(hostile[:2] + rng.sample(hostile, rng.randint(1, 4)))) if hostile[1].startswith(hostile[0]) else rng.sample(hostile, rng.randint(2, 5))
+            ps = list(dict.fromkeys(hostile[:2] + rng.sample(hostile, rng.randint(1, 4)))) if hostile[1].startswith(hostile[0]) else rng.sample(hostile, rng.choice([2, 3, 4, 5, 5, 8, 12]))
             terms = ["%s*{%s}" % (rng.choice(["2", "0.5", "1.5e-7", "3", "1"]), p) for p in ps]
             if rng.random() < 0.4:
                 terms.append("{%s}*{%s}" % tuple(rng.sample(ps, 2)))
@@ -66,7 +66,7 @@ def make_script(rng, g):
             slot = rng.choice(["(%s)", "(k=%s)", "(k=[%s, 1])", "(1, %s)"])
             lines.append(G.opname() + slot % e + " | " + G.modes_text(G.pick_modes(4)))
         elif k < 0.85:
-            rs = rng.sample([0, 1, 2, 3, 5, 7, 10, 12, 31, 64, 120], rng.randint(2, 5))
+            rs = rng.sample([0, 1, 2, 3, 5, 7, 10, 12, 31, 64, 120, 99, 100, 999, 1000, 1001, 65535], rng.choice([2, 3, 4, 5, 5, 8, 11]))
             terms = ["%s*q%d" % (rng.choice(["2", "0.5", "3", "1"]), r_) for r_ in rs]
             e = terms[0]
             for t in terms[1:]:
